@@ -43,6 +43,8 @@ type Script struct {
 	Cert   *x509.Certificate
 	Reply  []byte
 	HasErr bool // fail even with an empty text
+	// WithResult: a failing call hands back its result value together with the error
+	WithResult bool
 }
 
 func (s Script) err() error {
@@ -148,12 +150,18 @@ func blobOf(k ssh.PublicKey) []byte {
 
 func (r *RecAgent) List() ([]*agent.Key, error) {
 	s := r.rec(Call{Op: "list"})
+	if s.err() != nil && !s.WithResult {
+		return nil, s.err()
+	}
 	return s.Keys, s.err()
 }
 
 func (r *RecAgent) Sign(key ssh.PublicKey, data []byte) (*ssh.Signature, error) {
 	s := r.rec(Call{Op: "sign", KeyBlob: blobOf(key), Data: append([]byte(nil), data...)})
 	if e := s.err(); e != nil {
+		if s.WithResult {
+			return s.Sig, e
+		}
 		return nil, e
 	}
 	return s.Sig, nil
@@ -162,6 +170,9 @@ func (r *RecAgent) Sign(key ssh.PublicKey, data []byte) (*ssh.Signature, error) 
 func (r *RecAgent) SignWithFlags(key ssh.PublicKey, data []byte, flags agent.SignatureFlags) (*ssh.Signature, error) {
 	s := r.rec(Call{Op: "signflags", KeyBlob: blobOf(key), Data: append([]byte(nil), data...), Flags: uint32(flags)})
 	if e := s.err(); e != nil {
+		if s.WithResult {
+			return s.Sig, e
+		}
 		return nil, e
 	}
 	return s.Sig, nil
@@ -221,12 +232,18 @@ func (r *RecAgent) Close() error { return r.rec(Call{Op: "close"}).err() }
 
 func (r *RecAgent) ListSlots() ([]string, error) {
 	s := r.rec(Call{Op: "listslots"})
+	if s.err() != nil && !s.WithResult {
+		return nil, s.err()
+	}
 	return s.Slots, s.err()
 }
 
 func (r *RecAgent) ReadSlot(slot string) (*x509.Certificate, error) {
 	s := r.rec(Call{Op: "readslot", Slot: slot})
 	if e := s.err(); e != nil {
+		if s.WithResult {
+			return s.Cert, e
+		}
 		return nil, e
 	}
 	return s.Cert, nil
@@ -235,6 +252,9 @@ func (r *RecAgent) ReadSlot(slot string) (*x509.Certificate, error) {
 func (r *RecAgent) AttestSlot(slot string) (*x509.Certificate, error) {
 	s := r.rec(Call{Op: "attestslot", Slot: slot})
 	if e := s.err(); e != nil {
+		if s.WithResult {
+			return s.Cert, e
+		}
 		return nil, e
 	}
 	return s.Cert, nil
